@@ -48,7 +48,7 @@ def empty_exclude_clause(chk):
     for api, nm in ((F, 'fnmatch'), (G, 'glob')):
         for p in ('!a', 'a', '-a', '!*.txt', ['!a', 'b'], '*'):
             for fl in (api.N, api.N | api.M, api.N | api.A, api.N | api.E):
-                for ex in ([], '', (), ['b'], None):
+                for ex in ([], '', (), ['b'], None, ['*.bak'], '*', ['.*', '?b'], ['**/*rc'] if api is G else ['[!a]*']):          # (wildcard exclusions: DOTMATCH is forced on both routes)
                     n += 1
                     chk.case(key=('empty-exclude', nm, str(p), fl, str(ex)))
                     try:
